@@ -29,6 +29,7 @@ KNOWN = common.known_for("C03")  # entries live in /verif/known_findings.json
 
 ASSUMPTIONS = [
     "composition theorem C03_pass_sound: per-transaction completeness and soundness of exploration (C01/C02), query = path constraints (C11), truthful external solver, sound unsat-core cache (C16) and exact refinement (C04/C11) are Section hypotheses visible in the statement; 36-byte revert data concrete (documented caveat, shown necessary by C03_pass_sound_symbolic_code_refuted)",
+    "C03_sibling_paths_do_not_share_mutable_state and C03_refinement_is_the_evm_operation restate theorems proved for C20 / C11 (Proofs/IsolationProofs.v, Proofs/SmtTextProofs.v) over Gen/GenCopies.v and Gen/GenRefine.v; their need tables / operation semantics are the specifications of those properties",
     "every submitted assertion query has its answer in ctx.solver_outputs when the verdict is computed (thread pool semantics: C05/C17)",
     "the reference interpreter (coq/Spec/Evm.v, extracted) is the EVM oracle; concrete executions use the canonical ABI encoding of the arguments",
     "the extracted model and driver are faithful to the Coq definitions (extraction is trusted)",
@@ -236,6 +237,64 @@ def l1_tie(rep, m, tier, r):
     return len(cases) + len(trees)
 
 
+# ----------------------------------------------------------------------------- L1: solve.solve_end_to_end
+
+def impl_solve_e2e(ch, r0, v0, chg, r1, isr):
+    """the REAL solve_end_to_end (with the real check_unsat_cores, PathContext.refine and refine) over a stubbed
+    solve_low_level: first invocation answers (r0, model valid = v0), a second one (r1, valid) -> (answer code, #invocations)"""
+    import types
+
+    import z3
+
+    from halmos import solve as S
+    from halmos.sevm import SMTQuery
+
+    res = {0: z3.unsat, 1: z3.sat, 2: z3.unknown, 3: "err"}
+    code = {str(v): k for k, v in res.items()}
+    decl = ("(declare-fun f_evm_bvmul_256 ((_ BitVec 256) (_ BitVec 256)) (_ BitVec 256))" if chg else "(declare-fun f_other_256 ((_ BitVec 256) (_ BitVec 256)) (_ BitVec 256))")
+    q = SMTQuery(decl + "\n(assert true)\n", ["a1", "a2", "a3"])
+    sctx = S.SolvingContext(dump_dir=__import__("pathlib").Path("/nonexistent/verif-c03"), executor=None, unsat_cores=[["a9"], ["a1", "a3"]] if ch else [["a9"], ["a1", "a4"]])
+    ctx = S.PathContext(args=types.SimpleNamespace(verbose=0), path_id=7, solving_ctx=sctx, query=q, is_refined=bool(isr))
+    calls = []
+
+    def fake(c):
+        calls.append(c)
+        r, v = (r0, v0) if len(calls) == 1 else (r1, 1)
+        model = S.PotentialModel(model={}, is_valid=bool(v)) if r == 1 else None
+        return S.SolverOutput(res[r], 0, c.path_id, "f", model=model)
+
+    saved = S.solve_low_level
+    S.solve_low_level = fake
+    try:
+        out = S.solve_end_to_end(ctx)
+    finally:
+        S.solve_low_level = saved
+    if len(calls) == 2 and not (calls[1].is_refined and calls[1].query.smtlib != q.smtlib):
+        return ("second invocation not on a changed refined query", len(calls))
+    return code[str(out.result)], len(calls)
+
+
+def l1_solve_tie(rep, m):
+    """exhaustive: unsat-core hit x first answer x model validity x does refinement change the query x second answer x is_refined"""
+    import itertools
+
+    cases = [list(c) for c in itertools.product((0, 1), (0, 1, 2, 3), (0, 1), (0, 1), (0, 1, 2, 3), (0, 1))]
+    model = m.parallel_batch([("c03_solve_e2e", c) for c in cases]) if m else None
+    for i, c in enumerate(cases):
+        ch, r0, v0, chg, r1, isr = c
+        got, n = impl_solve_e2e(*c)
+        # spec: the answer is unsat only if a core is contained or the solver said unsat on (a refinement of) the query
+        truthful_unsat = bool(ch) or r0 == 0 or (r0 == 1 and not v0 and not isr and chg and r1 == 0)
+        case = {"l1": "solve_end_to_end", "core_hit": ch, "first": r0, "valid": v0, "refine_changes": chg, "second": r1, "is_refined": isr}
+        rep.case(case, nontrivial=True)
+        rep.count("l1_solve_e2e", f"answer={got}/invocations={n}")
+        if got == 0 and not truthful_unsat:
+            rep.fail("failing-input", f"solve_end_to_end answers unsat although no unsat core is contained and no solver invocation answered unsat: {case}", case=case, sig={"kind": "l1-solve-e2e-unsat"})
+        elif model is not None and (model[i] is None or model[i] != [got]):
+            rep.fail("broken-tie", f"solve_end_to_end: model {model[i]} vs implementation {got} on {case}", case={**case, "implementation": got, "model": model[i]})
+    return len(cases)
+
+
 # ----------------------------------------------------------------------------- L3
 
 def special_contracts():
@@ -396,7 +455,7 @@ def run(rep, tier):
         else:
             m = Model(exe)
     r = common.rng(PID)
-    n1 = l1_tie(rep, m, tier, r)
+    n1 = l1_tie(rep, m, tier, r) + l1_solve_tie(rep, m)
     n3 = l3_tie(rep, m, tier, r)
     rep.coverage["traces_validated_against_impl"] = n1 + n3
     rep.coverage["known_findings_declared"] = [k["id"] for k in KNOWN]
